@@ -258,12 +258,13 @@ def replay(w):
     return what is not None, 'compute(%r) = %r: %s' % (M, out, what or 'satisfies the property')
 
 
-LEVEL_TEXT = ('Machine-checked for ALL rectangular integer cost matrices of every size: the step-by-step model of Munkres.compute '
-              'terminates (no fuel exhaustion, no error branch) when entries lie in [0,B] with max(r,c)*B < sys.maxsize, and whenever it '
-              'returns (no bound needed) the result has min(r,c) pairs, uses each row and column at most once and has minimum total cost over '
-              'all such matchings (potential invariants of the Hungarian method + weak duality); a solve on a reused instance equals a solve '
+LEVEL_TEXT = ('Machine-checked for ALL rectangular integer cost matrices of every size and magnitude (no bound on the entries, even '
+              'negative ones): the step-by-step model of Munkres.compute terminates (no fuel exhaustion, no error branch) and returns '
+              'min(r,c) pairs that use each row and column at most once and have minimum total cost over all such matchings (potential '
+              'invariants of the Hungarian method + weak duality), listed by increasing row; a solve on a reused instance equals a solve '
               'on a fresh one for every history. The model is tied to munkres.py at trace level (result, sequence of steps, final reduced '
-              'matrix, final marks) on exhaustive small scopes and thousands of random matrices; float runs are replayed bit-exactly.')
+              'matrix, final marks) on exhaustive small scopes and thousands of random matrices incl. costs far beyond sys.maxsize; float '
+              'runs are replayed bit-exactly.')
 LEVEL_NOTE = ('Exact integer costs in the theorems; float runs are replayed with Coq primitive floats and optimality up to rounding is '
               'checked by an exact subset-DP oracle (not a theorem). Trusted: Coq kernel incl. primitive floats, the harness.')
 TECHNIQUE = 'Coq proof (invariants of the Hungarian method, weak duality) + trace-level vm_compute correspondence incl. PrimFloat replay'
